@@ -11,13 +11,39 @@ EXPLANATION = ("R09.1 per-Age decision table of the age criterion: an OR of `f(c
                "rotation created_at is re-read from the new file (creation -> modification -> now fallback chain); R09.4 with a current "
                "infix the rotated file is named after the stored start time, which is then replaced by the function's result. R09.3 also: RollState::new takes created_at of the age-bearing variants from the creation timestamp of the path it is given."
                " R09.5 (shared start table of R06.3/R06.5): an append-restart continues the file with the newest parsed timestamp (maximum, not first listed); a left-over current file is rotated under its own start time."
-               " R09.6 criterion wiring: the Criterion (Age) given to rotate()/o_rotate() reaches the rotation configuration of the state unchanged (shared configuration-wiring tables, rules/cfgwiring.py).")
+               " R09.6 criterion wiring: the Criterion (Age) given to rotate()/o_rotate() reaches the rotation configuration of the state unchanged (shared configuration-wiring tables, rules/cfgwiring.py)."
+               " R09.7 the rotation decision is asked only by the record sink and by the explicit rotation request: time alone (flush, flusher threads, shutdown) never rotates.")
 ASSUMPTIONS = ["chrono's Datelike/Timelike accessors on DateTime<Local> return the local calendar fields", "Local::now() is the local clock"]
 NOT_DECIDED = ["local-time semantics (zones, DST, clock steps)", "file-system timestamp quality", "what 'started' means after an append-restart"]
 FLOORS = {'R09.1': 4, 'R09.2': 4, 'R09.3': 3, 'R09.4': 3}
 
 
+def who_triggers_rotation(R, ctx, rule='R09.7'):
+    """`exactly at the first WRITE in a later period`: the rotation decision (mount_next_linewriter_if_necessary) is asked by the record sink - with the
+    non-forced trigger - and by the explicit rotation request only.  Any other caller (flush, a flusher thread, shutdown, a query) lets time alone rotate:
+    empty files named after periods in which nothing was written, and the next record's file named after the flush instead of its first record."""
+    import c08
+    f, cg = ctx.f, ctx.cg
+    mb = ctx.body(r'^writers::file_log_writer::state::State::mount_next_linewriter_if_necessary$')
+    sink, _w = c08.find_sink(ctx)
+    explicit = {p for p in f.bodies if re.search(r'^writers::file_log_writer::FileLogWriter::rotate$|FileLogWriter as writers::log_writer::LogWriter>::rotate$', p)}
+    callers = sorted({root_fn(a) for (a, _bb, _k) in cg.callers.get(mb.path, [])} - {mb.path})
+    if not callers:
+        raise CheckError(f"{rule}: no caller of the rotation function found")
+    n = 0
+    for c in callers:
+        ok = c == root_fn(sink.path) or only_called_from(cg, c, explicit)
+        n += 1
+        R.check(rule, f"{c}|may-ask-for-rotation", ok, "record sink / explicit rotation request",
+                f"{c} asks for the rotation decision although it neither writes a record nor serves an explicit rotation request: the age criterion then fires without a write "
+                "(empty files for idle periods, files named after a flush instead of their first record)", where=f.bodies[c].loc() if c in f.bodies else None)
+    if root_fn(sink.path) not in callers:
+        raise CheckError(f"{rule}: the record sink does not call the rotation function")
+
+
 def run(R, ctx):
+    R.rule('R09.7', 'WHO-MAY-CALL(rotation decision) = record sink + explicit rotation request')
+    who_triggers_rotation(R, ctx)
     R.rule('R09.6', 'criterion wiring: the Criterion (Age) given to rotate()/o_rotate() reaches the rotation configuration of the state unchanged')
     import cfgwiring
     cfgwiring.config_wiring(R, ctx, 'R09.6', 'C09')
